@@ -123,6 +123,7 @@ Definition fail_parts (cm rm mm : M val) (c : cfg) : string :=
   (if b_iff pr (c_o c) (c_t c) (c_sc c) r then "" else "iff_derivable ") ++
   (if b_precedence pr (c_t c) r then "" else "precedence ") ++
   (if b_mode_right pr (c_t c) r then "" else "mode_right ") ++
+  (if b_documented pr (c_o c) (c_t c) (c_sc c) r then "" else "documented_kernels ") ++
   (if b_reported rl (fst (interp pr rm [])) then "" else "reported_graph ").
 Definition bool_str (b : bool) : string := if b then "1" else "0".
 Definition describe_cfg (c : cfg) (why : string) : string :=
